@@ -477,6 +477,12 @@ pub fn transcript(g: &[u8]) -> (Vec<u8>, Vec<String>, bool, Vec<String>) {
 
 const PROTO_MAGIC: u32 = 0x5339_4D32;
 
+/// fingerprint of the harness sources (build.rs); library-independent
+fn src_hash() -> u64 {
+    env!("SM9VERIF_SRC_HASH").parse().unwrap_or(0)
+}
+
+#[allow(dead_code)]
 fn log_hash(log: &[String]) -> u64 {
     let mut k = Key::new();
     for l in log {
@@ -506,7 +512,8 @@ pub fn serve() {
         // fingerprint of the decoded program: lets the parent tell "the two harness binaries decode this genome
         // differently" (stale build, infrastructure) from "the library behaves differently" (violation)
         let _ = o.write_all(&PROTO_MAGIC.to_le_bytes());
-        let _ = o.write_all(&log_hash(&log).to_le_bytes());
+        let _ = o.write_all(&src_hash().to_le_bytes());
+        let _ = &log;
         let _ = o.write_all(&(tr.len() as u32).to_le_bytes());
         let _ = o.write_all(&tr);
         let _ = o.flush();
@@ -629,8 +636,8 @@ pub fn check(g: &[u8], ctx: &Ctx) -> Result<Info, Failure> {
         Ok(Some(t)) => {
             let mut h = [0u8; 8];
             h.copy_from_slice(&t[..8]);
-            if u64::from_le_bytes(h) != log_hash(&log) {
-                fail!("harness|dbg-binary-decodes-differently", "the dbg-profile harness binary decodes this genome into a different program than the release binary: the two binaries were not built from the same harness sources (rebuild with /verif/run.sh build)");
+            if u64::from_le_bytes(h) != src_hash() {
+                fail!("harness|stale-dbg-binary", "the dbg-profile harness binary was built from different harness sources than this release binary (rebuild both with /verif/run.sh build)");
             }
             t[8..].to_vec()
         }
